@@ -3,7 +3,7 @@ CONSTANTS
   NW = 0
   SyncCap = 1
   MaxTicks = 2
-  MaxJPolls = 3
+  MaxJPolls = 2
   MaxWakes = 1
   JCmds = {"poll", "hdrop", "cancel", "detach"}
   HCmds = {"tick", "clear", "execdrop"}
